@@ -21,6 +21,8 @@ pub struct Script {
     pub probe_id: u32,
     pub notes: Vec<String>,
     pub stalled: std::collections::BTreeSet<usize>,
+    /// client sockets of connections the server has ended, deliberately left open
+    pub lingering: Vec<TcpStream>,
     pub last_served: Vec<usize>,
 }
 
@@ -53,7 +55,7 @@ fn read_for(s: &mut TcpStream, ms: u64) -> (Vec<u8>, bool) {
 
 impl Script {
     pub fn new() -> Script {
-        Script { server: None, conns: BTreeMap::new(), timeout_ms: 1000, probe_id: 0, notes: vec![], stalled: Default::default(), last_served: vec![] }
+        Script { server: None, conns: BTreeMap::new(), timeout_ms: 1000, probe_id: 0, notes: vec![], stalled: Default::default(), lingering: vec![], last_served: vec![] }
     }
 
     pub fn exec(&mut self, line: &str) -> String {
@@ -65,12 +67,19 @@ impl Script {
                 let t: u32 = timeout.parse().unwrap();
                 self.timeout_ms = t as u64 * 1000;
                 self.conns.clear();
+                self.lingering.clear();
                 self.server = Some(net::start_server(store, ITEM_LIMIT, limit.parse().unwrap(), t));
                 "ok".into()
             }
             ["open", i] => {
                 let port = self.server.as_ref().unwrap().port;
-                let s = TcpStream::connect(("127.0.0.1", port)).expect("connect");
+                let s = match TcpStream::connect(("127.0.0.1", port)) {
+                    Ok(s) => s,
+                    Err(e) => {
+                        self.notes.push(format!("server-dead: connection {} cannot be opened ({}): the server has stopped accepting connections at this point of the script", i, e));
+                        return "connect-failed".into();
+                    }
+                };
                 s.set_nodelay(true).ok();
                 self.conns.insert(i.parse().unwrap(), s);
                 std::thread::sleep(Duration::from_millis(15));
@@ -146,6 +155,19 @@ impl Script {
                         "quitq" => {
                             let _ = s.write_all(&wire::bare(op::QUITQ, 1).bytes());
                             read_for(&mut s, 250);
+                        }
+                        // the server ends these connections itself; the client never closes its socket (kept until the
+                        // script is over): the slot must come back all the same
+                        "quit-open" | "quitq-open" | "proto-open" => {
+                            let mut f = wire::bare(if *how == "quitq-open" { op::QUITQ } else if *how == "quit-open" { op::QUIT } else { op::NOOP }, 1).bytes();
+                            if *how == "proto-open" {
+                                f[0] = 0x55;
+                            }
+                            let _ = s.write_all(&f);
+                            read_for(&mut s, 250);
+                            self.lingering.push(s);
+                            std::thread::sleep(Duration::from_millis(40));
+                            return "ok".into();
                         }
                         "mid" => {
                             let f = wire::set_like(op::SET, b"k", b"0123456789", 0, 0, 0, 5).bytes();
@@ -231,7 +253,7 @@ pub fn gen_script(rng: &mut Rng) -> Vec<String> {
         } else if k < 9 {
             let idx = rng.below(open.len() as u64) as usize;
             let i = open.remove(idx);
-            let how = *rng.pick(&["close", "close", "quit", "quitq", "mid", "proto", "oversize"]);
+            let how = *rng.pick(&["close", "close", "quit", "quitq", "mid", "proto", "oversize", "quit-open", "quitq-open", "proto-open"]);
             ops.push(format!("end {} {}", i, how));
         } else if idles < 1 && !open.is_empty() {
             idles += 1;
